@@ -31,7 +31,12 @@ def main():
     for prog in job['recipes']:
         o, r, handles, helper, initial = recipes.run_recipe(prog)
         q = recipes.run_queries(prog, r, handles, helper.subs) if o[0] == 'ok' else []
-        out['recipes'].append({'bake': o, 'queries': q})
+        res = {'bake': o, 'queries': q}
+        if job.get('ledger'):
+            # the eager execution of the same steps in THIS process (this configuration): what bake is to be compared with
+            rp = recipes.Replayed(prog)
+            res['ledger'] = {'failed': list(rp.failed) if rp.failed else None, 'history': rp.eager.history, 'initial': rp.initial}
+        out['recipes'].append(res)
     json.dump(enc(out), open(outp, 'w'))
 
 
